@@ -914,6 +914,11 @@ class TCPHiddenServiceEndpointParser(object):
                 )
         else:
             singleHop = False
+        if singleHop and hiddenServiceDir is not None:
+            # (refuse now, not after connecting to the control port)
+            raise ValueError(
+                "'singleHop=' only makes sense for ephemeral onions"
+            )
 
         if version is not None:
             try:
